@@ -9,7 +9,7 @@ git -C "$WT" checkout -q --detach "$(git -C /repo rev-parse HEAD)" 2>/dev/null
 git -C "$WT" checkout -q -- . ; git -C "$WT" clean -fdq src
 git -C "$WT" apply "$patch" || { echo "patch does not apply"; exit 2; }
 mkdir -p /tmp/sens_out; cp /verif/known-findings.jsonl /tmp/sens_out/
-cd /verif
+cd "$(dirname "$(readlink -f "$0")")"
 for id in "$@"; do
   out=$(ZCHECK_SLOT=fg ZSIM_REPO="$WT" ZSIM_SHADOW=/tmp/sens_fg_shadow CARGO_TARGET_DIR_OVERRIDE=/tmp/sens_fg_target ZCHECK_VERIF=/tmp/sens_out ./check "$id" --tier quick 2>&1)
   code=$?
